@@ -455,7 +455,10 @@ impl<'a, T: Transport> Client<'a, T> {
             if let Some(u) = until {
                 wake = wake.min(u);
             }
-            if let Some(s) = self.scheduled.iter().map(|s| s.at).min() {
+            // scheduled sends cannot start while another frame is half-sent
+            if !self.in_put
+                && let Some(s) = self.scheduled.iter().map(|s| s.at).min()
+            {
                 wake = wake.min(s);
             }
             if self.net.server_closed() {
